@@ -782,6 +782,9 @@ func (w *World) compareResults(L, r *Replica, ri int, h int64, a, b *BlockResult
 		}
 	}
 	if digestValUpdates(a.EndBlock.ValidatorUpdates) != digestValUpdates(b.EndBlock.ValidatorUpdates) {
+		// two nodes at the same committed state announce different validator updates: at most one of them mirrors
+		// the staking ledger (C10 quantifies over restarts too)
+		props = append(append([]string(nil), props...), "C10")
 		w.violate("replica.valupdates", props, h, "%s=%s %s=%s", L.Name, digestValUpdates(a.EndBlock.ValidatorUpdates), r.Name, digestValUpdates(b.EndBlock.ValidatorUpdates))
 		return
 	}
